@@ -419,13 +419,13 @@ def _contracts():
             st["ctx"].add(il - n)
         return ('slice', n)
 
-    def c_havoc_self(it, st, args, dty):
-        # verified below as separate entries: parse_payload / parse_head keep the cursor invariant; nothing else is assumed about them
-        syms = ["%s@%d" % (f, next(it.fresh)) for f in it.cursors]
-        it.chain(st["ctx"], syms)
-        st["heap"] = {f: R.Lin.sym(x) for f, x in zip(it.cursors, syms)}
-        st["regions"] = {}
-        return it.opaque()
+    def mk_havoc_self(name):
+        def c_havoc_self(it, st, args, dty):
+            # verified below as separate entries: parse_payload / parse_head keep the cursor invariant; beyond that only a frame condition is
+            # used -- a cursor the callee (and what it calls) never writes keeps its value
+            it.havoc_cursors(st, it.frame_fields(name))
+            return it.opaque()
+        return c_havoc_self
 
     def c_state_drive(it, st, args, dty):
         # request::State::drive(self, data, out, config) -> (rest, state): `rest` is a sub-slice of `data` (its lifetime has no other source)
@@ -437,8 +437,8 @@ def _contracts():
 
     return {
         "parser::request::State::drive": c_state_drive,
-        SP + "::parse_payload": c_havoc_self,
-        SP + "::parse_head": c_havoc_self,
+        SP + "::parse_payload": mk_havoc_self(SP + "::parse_payload"),
+        SP + "::parse_head": mk_havoc_self(SP + "::parse_head"),
         "std::io::impls::write": c_write,
         "protocol::nv::NVIter::new": c_nv_new,
         "protocol::nv::NVIter::into_inner": c_nv_inner,
